@@ -8,13 +8,22 @@ pub uninterp spec fn pattern_bytes<P>(p: P) -> Seq<u8>;
 
 #[verifier::external_body]
 #[verifier::reject_recursive_types(P)]
-pub struct PatternNorm<P> { _p: core::marker::PhantomData<P> }
+pub struct PatternNorm<'p, P> { _p: core::marker::PhantomData<&'p P> }
 
-impl<P> PatternNorm<P> {
+// PatternNorm is `#[derive(Copy, Clone)]` in konst
+impl<'p, P> Clone for PatternNorm<'p, P> {
+    #[verifier::external_body]
+    fn clone(&self) -> (r: Self)
+        ensures r == *self,
+    { unimplemented!() }
+}
+impl<'p, P> Copy for PatternNorm<'p, P> {}
+
+impl<'p, P> PatternNorm<'p, P> {
     pub uninterp spec fn bytes(&self) -> Seq<u8>;
 
     #[verifier::external_body]
-    pub fn new(p: P) -> (r: PatternNorm<P>)
+    pub fn new(p: P) -> (r: PatternNorm<'p, P>)
         ensures r.bytes() == pattern_bytes(p), utf8_ok(r.bytes()),
     { unimplemented!() }
 
